@@ -106,6 +106,7 @@ impl Sm {
 
 thread_local! {
     static LAST_PANIC: RefCell<Option<String>> = RefCell::new(None);
+    static CATCH_DEPTH: std::cell::Cell<u32> = std::cell::Cell::new(0);
 }
 
 pub fn install_silent_panic_hook() {
@@ -121,6 +122,10 @@ pub fn install_silent_panic_hook() {
             .location()
             .map(|l| format!("{}:{}", l.file(), l.line()))
             .unwrap_or_default();
+        // a panic outside any catch() is a harness (usually generator) bug: say so
+        if CATCH_DEPTH.with(|d| d.get()) == 0 {
+            eprintln!("HARNESS-PANIC (outside a guarded call): {msg} @ {loc}");
+        }
         LAST_PANIC.with(|p| *p.borrow_mut() = Some(format!("{msg} @ {loc}")));
     }));
 }
@@ -128,7 +133,10 @@ pub fn install_silent_panic_hook() {
 /// Runs `f`, returning Err(panic message + location) if it panics.
 pub fn catch<R>(f: impl FnOnce() -> R) -> Result<R, String> {
     LAST_PANIC.with(|p| *p.borrow_mut() = None);
-    match std::panic::catch_unwind(std::panic::AssertUnwindSafe(f)) {
+    CATCH_DEPTH.with(|d| d.set(d.get() + 1));
+    let r = std::panic::catch_unwind(std::panic::AssertUnwindSafe(f));
+    CATCH_DEPTH.with(|d| d.set(d.get().saturating_sub(1)));
+    match r {
         Ok(r) => Ok(r),
         Err(_) => Err(LAST_PANIC
             .with(|p| p.borrow_mut().take())
@@ -465,7 +473,7 @@ impl Ctx {
                 let obs = RefCell::new(Obs::new());
                 let last_fail: RefCell<Option<Fail>> = RefCell::new(None);
                 let strat = mk_strategy();
-                let r = runner.run(&strat, |v| {
+                let r = std::panic::catch_unwind(std::panic::AssertUnwindSafe(|| runner.run(&strat, |v| {
                     if min_failed.load(std::sync::atomic::Ordering::Relaxed) < c {
                         return Ok(());
                     }
@@ -489,7 +497,14 @@ impl Ctx {
                             }
                         },
                     }
-                });
+                })));
+                let r = match r {
+                    Ok(r) => r,
+                    Err(_) => {
+                        eprintln!("HARNESS-ERROR {prop}/{sub}: the case generator panicked (see HARNESS-PANIC above); inconclusive");
+                        std::process::exit(2);
+                    }
+                };
                 let obs = obs.into_inner();
                 match r {
                     Ok(()) => (obs, None),
